@@ -44,7 +44,13 @@ Definition key_of_step (kt : Z) (s : pstep) : option tval :=
   | PIntKey n =>
       if kt =? T_BYTE then Some (VByte (to_s 8 n)) else if kt =? T_I16 then Some (VI16 (to_s 16 n))
       else if kt =? T_I32 then Some (VI32 (to_s 32 n)) else if kt =? T_I64 then Some (VI64 (to_s 64 n)) else None
-  | PBinKey b => match decode (S (length b)) kt b with Some (kv, []) => Some kv | _ => None end
+  | PBinKey b =>
+      (* skip first: it bounds every declared length by the remaining input with Z comparisons, so that random key bytes
+         (a 4-byte "string length" of 10^9) never reach the decoder's unary length arithmetic *)
+      match skip_go kt b with
+      | Some [] => match decode (S (length b)) kt b with Some (kv, []) => Some kv | _ => None end
+      | _ => None
+      end
   | _ => None
   end.
 
